@@ -220,7 +220,7 @@ Proof. unfold p_step. destruct (mp ms); try discriminate; reflexivity. Qed.
 Lemma p_fail_cont c ms pre tout now post e t : active (mp ms) = true ->
   p_step c ms pre (OpFailed tout now) (mkObs (OutRetry e t true) 0 [] post)
   = (first_fail (common c pre post (OutRetry e t true)
-                 ++ [(is_first (mp ms), "C07:isc-retry-after-retry")]
+                 ++ [(is_first (mp ms), retry_kind (mp ms))]
                  ++ [ (in_range 0 t (m_orig ms), "C07:isc-timeout-out-of-range");
                       (in_range 0 e t, "C07:isc-expected-duration-out-of-range") ]
                  ++ cont_checks 0 []),
